@@ -2,6 +2,8 @@ package props
 
 import (
 	"fmt"
+	"regexp"
+	"sort"
 	"strings"
 
 	"golang.org/x/tools/go/ssa"
@@ -210,6 +212,40 @@ func C02(p *ir.Program, r *report.R) {
 	verifyCommitTally(c)
 	// the status blocks are validated against is rebuilt with the right validator set after a crash
 	rebuildStatusRules(c)
+	// a committed block the node does not hold is fetched into a FRESH block object (shared with C12)
+	proposalBlockAndPartsChangeTogether(c)
+
+	// what the next status carries over from the previous one is a reviewed list: LastRecover must NOT be
+	// among it (a sticky flag switches the mandatory fault evidence and the validators-hash check off for
+	// every later block)
+	{
+		us := p.Func("consensus", "updateStatus")
+		carried := map[string]string{}
+		n := 0
+		for _, rt := range ir.Returns(us) {
+			v := ir.Render(rt.Results[0])
+			if !strings.HasPrefix(v, "consensus.NewStatus{") {
+				continue
+			}
+			n++
+			for _, fld := range []string{"LastRecover"} {
+				r.Check("K4", "consensus.updateStatus/not-carried-over:"+fld, p.InstrPos(rt.Instr), !strings.Contains(v, fld+":"), "the new status does not inherit "+fld+" (it is set by updateToStatus for the one block produced in recover mode)")
+			}
+			for _, m := range regexp.MustCompile(`(\w+):status\.(\w+)`).FindAllStringSubmatch(v, -1) {
+				carried[m[1]] = m[2]
+			}
+		}
+		c.MustFind("K4", "consensus.updateStatus/status literal", us, n, "NewStatus literal")
+		var bad []string
+		reviewed := map[string]bool{"ChainID": true, "LastValidators": true}
+		for f, from := range carried {
+			if !reviewed[f] && f != from {
+				bad = append(bad, f+"<-"+from)
+			}
+		}
+		sort.Strings(bad)
+		r.Check("K4", "consensus.updateStatus/fields-from-their-own-predecessor", p.Pos(us.Pos()), len(bad) == 0, fmt.Sprintf("a field copied from the previous status comes from the field of the same name (LastValidators <- Validators reviewed): %v", bad))
+	}
 }
 
 var _ = report.Discharged
